@@ -89,6 +89,13 @@ func main() {
 				}()
 				p.Run(c)
 			}()
+			if d := os.Getenv("TMSA_DUMP"); d != "" {
+				for _, o := range c.obs {
+					if strings.HasPrefix(o.Rule, d) {
+						fmt.Printf("DUMP %s %s [%v] %s\n", o.Rule, o.Key, o.Status, o.Fact)
+					}
+				}
+			}
 			var extra map[string]any
 			rc := 0
 			if *tier == "thorough" {
